@@ -684,3 +684,99 @@ m("C04", "refactor-exceptions-tuple", TA,
                   ValueError, TypeError)
 
     ignore_prefix = True''', expect="silent")
+
+# ---- C07 -------------------------------------------------------------------
+TL = "tal.py"
+m("C07", "index-before-insert", TL,
+  "                normalized[name.lower()] = index\n",
+  "                normalized[name.lower()] = len(attributes) - 1\n")
+m("C07", "static-index-off-by-one", TL,
+  "        normalized[name.lower()] = len(attributes) - 1\n\n    for name, expr in dyn_attributes:",
+  "        normalized[name.lower()] = len(attributes)\n\n    for name, expr in dyn_attributes:")
+m("C07", "lookup-not-folded", TL,
+  "        index = normalized.get(name.lower()) if name else None",
+  "        index = normalized.get(name) if name else None")
+m("C07", "store-not-folded", TL,
+  "        normalized[name.lower()] = len(attributes) - 1\n\n    for name, expr in dyn_attributes:",
+  "        normalized[name] = len(attributes) - 1\n\n    for name, expr in dyn_attributes:")
+m("C07", "dynamic-appended-not-replaced", TL,
+  "            add = attributes.__setitem__",
+  "            add = attributes.insert")
+m("C07", "dict-excludes-earlier", ZP,
+  "                            set(filter(None, names[i:])),",
+  "                            set(filter(None, names[:i])),")
+m("C07", "boolean-for-all-dynamic", ZP,
+  "                    elif name in self.boolean_attributes:\n                        value = nodes.Boolean(",
+  "                    elif name is not None and expr:\n                        value = nodes.Boolean(")
+m("C07", "none-attribute-written", C,
+  '''        condition = template("TARGET is not None", TARGET=target, mode="eval")''',
+  '''        condition = template("TARGET is not False", TARGET=target, mode="eval")''')
+m("C07", "bool-false-renders-empty", C,
+  '''    else:
+        target = None""")
+
+
+emit_convert =''',
+  '''    else:
+        target = ''""")
+
+
+emit_convert =''')
+m("C07", "bool-marker-true", C,
+  '''    if target is default_marker:
+        target = default
+    elif target:
+        target = s''',
+  '''    if target:
+        target = s
+    elif target is default_marker:
+        target = default''')
+m("C07", "html-bools-in-xml", "zpt/template.py",
+  '''        if self.content_type != 'text/xml':
+            if boolean_attributes is None:
+                boolean_attributes = BOOLEAN_HTML_ATTRIBUTES
+''',
+  '''        if boolean_attributes is None:
+            boolean_attributes = BOOLEAN_HTML_ATTRIBUTES
+
+        if self.content_type != 'text/xml':
+''')
+m("C07", "filters-not-registered", ZP,
+  '''                        for fs in filtering:
+                            fs.append(expression)
+                        filtering.append([])''',
+  '''                        filtering[-1].append(expression)
+                        filtering.append([])''')
+m("C07", "static-ignores-filters", C,
+  '''            if node.filters:
+                return template(
+                    "if C: __append(S)", C=filter_condition, S=ast.Constant(s)
+                )
+            else:
+                return [EmitText(s)]''',
+  '''            return [EmitText(s)]''')
+m("C07", "default-lost", ZP,
+  "                default = ast.Constant(text) if text is not None else None",
+  "                default = None")
+m("C07", "refactor-lower-var", TL,
+  '''        attributes.append((
+            name,
+            attribute['value'],
+            attribute['quote'],
+            attribute['space'],
+            attribute['eq'],
+            None,
+        ))
+
+        normalized[name.lower()] = len(attributes) - 1''',
+  '''        entry = (
+            name,
+            attribute['value'],
+            attribute['quote'],
+            attribute['space'],
+            attribute['eq'],
+            None,
+        )
+        key = name.lower()
+        attributes.append(entry)
+        normalized[key] = len(attributes) - 1''', expect="silent")
